@@ -86,8 +86,9 @@ type c06Op struct {
 	Avail []int    `json:"avail"`
 	Alloc []c06CPU `json:"alloc"`
 	// dist
-	Mode string   `json:"mode"`
-	Free []c06Amt `json:"free"`
+	Mode   string   `json:"mode"`
+	Free   []c06Amt `json:"free"`
+	NoTopo bool     `json:"noTopo,omitempty"` // release: executed while the node has no usable CPU topology
 }
 
 func c06Ints(s []int) []int {
@@ -352,6 +353,13 @@ func (w *c06World) exec(o *c06Op) vu.Ev {
 		return ev
 	case "release":
 		ev := vu.Ev{"op": "release", "pod": o.Pod}
+		if o.NoTopo {
+			// the pod goes away while the node's topology report is missing (NodeResourceTopology deleted / re-reported
+			// without a usable CPU topology); the report comes back afterwards
+			ev["noTopo"] = true
+			w.tom.UpdateTopologyOptions(c06Node, func(t *TopologyOptions) { t.CPUTopology = nil })
+			defer w.tom.UpdateTopologyOptions(c06Node, func(t *TopologyOptions) { t.CPUTopology = w.topo })
+		}
 		c06ApplyOp(w.rm, w.tom, w.node, o)
 		ev["obs"] = c06Project(w.rm.GetNodeAllocation(c06Node), w.topo.NumCPUs, w.numaIDs)
 		return ev
@@ -891,7 +899,7 @@ func c06RandomHistory(rec *vu.Recorder, st *c06Stats, rng *rand.Rand, length int
 			sh.cpus[o.Pod], sh.numa[o.Pod] = c06Ints(o.Cpus), c06Amts(o.Numa)
 			sh.excl[o.Pod] = o.Excl
 		default: // release (sometimes a pod the node does not know)
-			o := c06Op{Op: "release", Pod: c06Pick(rng, podNames)}
+			o := c06Op{Op: "release", Pod: c06Pick(rng, podNames), NoTopo: rng.Intn(4) == 0}
 			if live := sh.pods(); len(live) > 0 && rng.Intn(4) != 0 {
 				o.Pod = live[rng.Intn(len(live))]
 			} else if rng.Intn(2) == 0 {
